@@ -212,6 +212,21 @@ def run(repo: Repo, rep: Report, tier: str) -> None:
                 dub = DefUse(m)
                 fresh = any(l.kind == "call" and l.text == "next_id" for l in dub.leaves(c.args[0]))
                 rep.check(fresh, "C15-R3", f"{m.short}: node id of {k} comes from next_id", norm(c.args[0]), m.loc(c))
+    # freshness by "has this id been declared before?" needs every declaration to be findable: lookups by id that name effect nodes (`mem_create_<id>`)
+    # only work while add_operation indexes every node it is given
+    ao = b.methods["add_operation"]
+    idx = [n for n in walk_local(ao.node) if isinstance(n, ast.Assign) and isinstance(n.targets[0], ast.Subscript) and norm(n.targets[0].value) == "self._operation_index"]
+    if not idx:
+        raise AnalysisError("C15-R3: IRBuilder.add_operation no longer fills self._operation_index")
+    effect_lookups = [(f, c) for f in repo.all_funcs() if ".lowering." in f.module.name + "." for c in calls_in(f.node, "get_operation")
+                      if c.args and isinstance(c.args[0], ast.JoinedStr) and any(isinstance(v, ast.Constant) and "create" in str(v.value) for v in c.args[0].values)]
+    rep.analysed["C15-R3:lookups of effect nodes by id"] = [f"{f.short}: {norm(c.args[0])[:50]}" for f, c in effect_lookups]
+    from .util import cguards as _cg3
+    cond_idx = [g for g, pol in _cg3(ao, idx[0]) if "isinstance(" in g]
+    ok_idx = not effect_lookups or not cond_idx
+    rep.check(ok_idx, "C15-R3", "IRBuilder.add_operation indexes every node, so a re-declaration is recognised by id", "unconditional index store" if not cond_idx else
+              ("no lookup depends on effect nodes" if ok_idx else
+               f"the index admits nodes only under `{cond_idx[0][:60]}` while {effect_lookups[0][0].short} looks a memory declaration up by id: the lookup never finds it and every expansion reuses `mem_<name>`"), ao.loc(idx[0]))
     nid = b.methods["next_id"]
     incr = any(isinstance(n, ast.AugAssign) and isinstance(n.op, ast.Add) and "node_counter" in norm(n.target) for n in walk_local(nid.node))
     rep.check(incr, "C15-R3", "IRBuilder.next_id increments its counter on every call", "counter += 1" if incr else "counter is not advanced", nid.loc())
